@@ -83,6 +83,10 @@ def instance(schema: str, n: int):
     return {"nope": n}
 
 
+class HarnessObservation(Exception):
+    """An op of the alphabet observed something wrong on the spot (reported as outcome 'fail:HarnessObservation')."""
+
+
 # ----------------------------------------------------------------------------------- real container
 
 
@@ -138,6 +142,18 @@ class Cont:
                     if hasattr(val, "build"):  # corpus entry that stands for an object (e.g. an instance of a child schema)
                         val = val.build()
                     mc[op[1]].meta[op[2].split("+")[0]] = val
+                elif k == "attachheld":
+                    # ONE metadata interface object of the node, kept and used again: store, (second store of the same
+                    # schema must be refused), the object must then be retrievable through the same interface object
+                    m = mc[op[1]].meta
+                    sname = op[2].split("+")[0]
+                    m[sname] = instance(op[2], n)
+                    try:
+                        m[sname] = instance(op[2], n)
+                    except ValueError:
+                        pass
+                    if sname not in m or m.get(sname) is None:
+                        raise HarnessObservation(f"held meta interface of {op[1]} does not see the {sname} object it stored itself")
                 elif k == "detach":
                     del mc[op[1]].meta[op[2].split("+")[0]]
                 elif k == "copy":
@@ -209,6 +225,9 @@ class CModel:
         n = self.n
         t = self.tree
         k = op[0]
+        if k == "attachheld":  # for the reference the same as a single attach
+            op = ["attach"] + list(op[1:])
+            k = "attach"
         try:
             if k == "mkds":
                 t[op[1]] = n
@@ -657,7 +676,7 @@ def expand(task):
 
 def _osig(op, ri, rm):
     sig = {"impl": ri.split(":")[0], "model": rm}
-    if op[0] in ("attach", "detach"):
+    if op[0] in ("attach", "detach", "attachheld"):
         sig["schema"] = op[2]
     return sig
 
